@@ -32,7 +32,8 @@ TRUSTED_BASE = [
 RS2LEAN_SPECS = [('words.json', 'WordsSrcGen.lean', 'SrcWords'), ('rdh.json', 'RdhSrcGen.lean', 'SrcRdh'),
                  ('payload.json', 'PayloadSrcGen.lean', 'SrcPayload'),
                  ('stateful.json', 'StateSrcGen.lean', 'SrcState'),
-                 ('trigstats.json', 'TrigSrcGen.lean', 'SrcTrig')]
+                 ('trigstats.json', 'TrigSrcGen.lean', 'SrcTrig'),
+                 ('lanechecks.json', 'LaneSrcGen.lean', 'SrcLane')]
 
 os.makedirs(CACHE, exist_ok=True)
 
